@@ -117,6 +117,11 @@ class Unit:
         if len(fresh) >= self.max_cex:
             self.r["skipped_after_violation"] = self.r.get("skipped_after_violation", 0) + 1
             return False
+        if sum(1 for c in self.r["cex"] if not c.get("reproduced")) >= 3:
+            # three counterexamples of this unit already failed to replay (harness errors):
+            # further ones would only repeat the expensive replays
+            self.r["skipped_after_unknown"] = self.r.get("skipped_after_unknown", 0) + 1
+            return False
         if self.r["unknown"] >= self.max_unknown:
             self.r["skipped_after_unknown"] = self.r.get("skipped_after_unknown", 0) + 1
             return False
